@@ -54,7 +54,7 @@ def _neg(d, idx, n):
     return idx - n if d.bool() else idx
 
 
-@subcheck(SUBCHECKS, 'psd_layouts', quick=2200, thorough=36000, fuzz=4000)
+@subcheck(SUBCHECKS, 'psd_layouts', quick=4400, thorough=36000, fuzz=4000)
 def psd_layouts(d, ctx):
     f = _psd()
     lead = tuple(d.int(1, 3) for _ in range(d.int(0, 3)))
@@ -189,7 +189,7 @@ def psd_layouts(d, ctx):
         or len({T, D, K}) == 3))
 
 
-@subcheck(SUBCHECKS, 'sparse_masks', quick=500, thorough=8000, fuzz=3000)
+@subcheck(SUBCHECKS, 'sparse_masks', quick=1000, thorough=8000, fuzz=3000)
 def sparse_masks(d, ctx):
     """masks that select nothing or a single frame, in every dtype the property
     names (boolean, real), without and with leading axes and a source axis:
@@ -240,7 +240,7 @@ def sparse_masks(d, ctx):
     ctx.nontrivial(select != 'one-frame' or T >= 2)
 
 
-@subcheck(SUBCHECKS, 'condition_covariance', quick=600, thorough=9000)
+@subcheck(SUBCHECKS, 'condition_covariance', quick=1200, thorough=9000)
 def condition_covariance(d, ctx):
     from pb_bss.extraction.beamformer import condition_covariance as cc
     lead = tuple(d.int(1, 4) for _ in range(d.int(0, 3)))
